@@ -32,6 +32,7 @@ fn deep_block(lang: &str, depth: usize) -> String {
             t.push_str(&format!("{}7\n{}zz\n", " ".repeat(depth), " ".repeat(depth)));
             t
         }
+        "declscan" => format!("{}x 7{}", "( ".repeat(1), " )".repeat(1)),
         "markscan" => format!("{}@m x 7 ;{}", "{ ".repeat(depth), " }".repeat(depth)),
         "cdecl" => format!("{}t * p; x * 7;{}", "{ ".repeat(depth), " }".repeat(depth)),
         _ => String::new(),
@@ -59,6 +60,11 @@ fn build_doc(b: &zoo::Built, lang: &str, tokens: usize, seed: u64) -> Vec<u8> {
         if lang == "pyish" {
             text = gen_pyish(&mut rng, 12);
             ntoks = text.split(|b: &u8| b.is_ascii_whitespace() || *b == b'(' || *b == b')' || *b == b',' || *b == b':').filter(|w| !w.is_empty()).count() * 2;
+        }
+        // declscan documents contain NO external token at all (stateless scanner: the edit below adds
+        // the first one, `7` -> `q!`)
+        if lang == "declscan" && text.contains(&b'!') {
+            continue;
         }
         // keep only error-free units (the property is about error-free documents)
         match probe.parse(&text, None) {
@@ -252,7 +258,13 @@ fn run_case(out: &mut impl Write, b: &zoo::Built, lang: &str, tokens: usize, whe
         **nums.iter().min_by_key(|(a, _, _)| (*a as isize - target_byte as isize).abs()).unwrap()
     };
     let old_text = &doc[pick.0..pick.1];
-    let ins: Vec<u8> = if old_text == b"42" { b"43".to_vec() } else { b"42".to_vec() };
+    let ins: Vec<u8> = if lang == "declscan" {
+        b"q!".to_vec() // a `tagged` token of the stateless external scanner: the document's first external token
+    } else if old_text == b"42" {
+        b"43".to_vec()
+    } else {
+        b"42".to_vec()
+    };
     let te = TextEdit { start: pick.0, old_end: pick.1, ins };
     let new = te.apply(&doc);
     let ie = te.input_edit(&doc, &new);
@@ -342,7 +354,7 @@ fn main() {
     }
     let seed = seed_from_env();
     let sizes: &[usize] = if tier_is_thorough() { &[1000, 10000, 100000] } else { &[1000, 10000] };
-    for lang in ["lst", "arith", "jsonish", "stmt", "cdecl", "pyish", "markscan"] {
+    for lang in ["lst", "arith", "jsonish", "stmt", "cdecl", "pyish", "markscan", "declscan"] {
         let b = match zoo::load(lang) {
             Ok(b) => b,
             Err(e) => {
